@@ -140,6 +140,32 @@ def write_cases(rnd, quick):
     return scns
 
 
+def overlong_cases(rnd, quick):
+    """fragments whose buffer is longer / shorter than the session's fragment size, at the last positions of the data and the
+       parity slot (run on the release build as well: an accepted write must stay inside its slot in every build)"""
+    scns = []
+    for _ in range(30 if quick else 600):
+        N = rnd.choice([3, 4, 5, 6]); blk = 256
+        sz = rnd.choice([8, 16, 48, 100, 128, 256])
+        slot = session.DRO + rnd.choice([256, 512, 1024, 4096])
+        room = (slot - session.DRO) // sz
+        if room < 1: continue
+        n = max(1, min(room, rnd.choice([1, 2, 5, room])))
+        sc = session.Scn(N, slot, blk)
+        for _ in range(rnd.randint(0, N)):
+            sc.add("start 8 2"); sc.add("drop")
+        sc.meta = {"n": n, "sz": sz, "room": room, "kind": "write"}
+        sc.meta["start"] = sc.add("start %d %d" % (sz, n))
+        idxs, segs = [], []
+        for i in (n, n + room, n + room - 1, 1):
+            ln = sz + rnd.choice([1, 28, 64, -1, 300])
+            if ln < 1: continue
+            idxs.append(i); segs.append(sc.add("seg %d %s" % (i, bytes(rnd.getrandbits(8) for _ in range(ln)).hex())))
+        sc.meta["idx"] = idxs; sc.meta["segs"] = segs
+        scns.append(sc)
+    return scns
+
+
 def write_oracle(s, out):
     me = s.meta
     msgs = []
@@ -184,10 +210,22 @@ def run(chk):
         for m_ in msgs[:1]:
             chk.failures.append(core.Failure(m_, "orig", "matrix", l, raw[:2000], key="c20"))
         nt.append(l)
-        if len(chk.failures) > 10: break
+        if chk.too_many(): break
     chk.note_cases("orig-ring", lines, nt, sample_n=2, dist=dist)
+    # wrong-length buffers, overflow-checked and release builds (implementation + oracle: a refused or panicking call writes nothing)
+    oscn = overlong_cases(rnd, chk.quick())
+    olines = [s.line() for s in oscn]
+    for variant in ("matrix", "matrix-rel"):
+        oimpl = [v1.STRIP.sub("", x) for x in core.run_stream(core.build_harness(variant), "orig", olines)]
+        for s, l, raw in zip(oscn, olines, oimpl):
+            out = session.parse_out(raw)
+            if len(out) != len(s.ops):
+                chk.failures.append(core.Failure("harness produced no / truncated result", "orig", variant, l, raw[-300:], key="crash")); break
+            for m_ in write_oracle(s, out)[:1]:
+                chk.failures.append(core.Failure("[buffer length differs from the fragment size, %s build] %s" % ("release" if variant.endswith("rel") else "overflow-checked", m_), "orig", variant, l, raw[:2000], key="c20"))
+        chk.note_cases("orig-wrong-length[%s]" % variant, olines, olines, sample_n=0, dist={"cases": len(olines)})
     chk.cov["exhaustive"] = False
     return chk.finish(level="proof",
-        rule="orig-ring: EVERY consistent ring state for 3..6 slots (every fill level and rotation) with first sequence numbers 0, 7, 2^31-1 and values placing the 2^32-1 wrap at different points of the run; start, then app_boot_status; the same ring states with in-progress headers at chosen positions (newest pair, newest slot only, oldest, all, a lone first header) and app_boot_status alone: resumes exactly the newest in-progress firmware/parity pair, otherwise idle with nothing left in progress; "
+        rule="orig-wrong-length: fragments whose buffer is longer / shorter than the fragment size at the last positions of the data and parity slots, overflow-checked and release builds (oracle only); orig-ring: EVERY consistent ring state for 3..6 slots (every fill level and rotation) with first sequence numbers 0, 7, 2^31-1 and values placing the 2^32-1 wrap at different points of the run; start, then app_boot_status; the same ring states with in-progress headers at chosen positions (newest pair, newest slot only, oldest, all, a lone first header) and app_boot_status alone: resumes exactly the newest in-progress firmware/parity pair, otherwise idle with nothing left in progress; "
              "write scenarios: fragment indices 1, n, n+1, around the parity capacity of the slot, n+16384 (+1), random, for sizes 1..256 and slots 17664 B .. 37888 B at every ring position incl. the last slot; non-trivial = every case; distinct by case text",
         trusted=core.TRUSTED_COMMON + ["C20: ring states are created by writing headers directly (raw) - the property quantifies over consistent ring states"])
